@@ -175,7 +175,7 @@ def observe_dna(spec, js, tree, nodes, opt_tuples, errs) -> dict:
         rec['anns'].append([name, project_ann(r, nodes)])
     except Exception as e:  # pylint: disable=broad-except
       rec['rts'].append([name, ['!', 0, []], False])
-      errs.append(f'{name}:{type(e).__name__}')
+      rec.setdefault('raised', []).append(f'{name}:{type(e).__name__}')
 
   rt('numbers_flat', lambda: DNA.from_numbers(d.to_numbers(), spec))
   rt('numbers_nested', lambda: DNA(d.to_numbers(flatten=False), spec=spec))
@@ -305,7 +305,8 @@ def observe_chain(spec, js, start_tree, pool, nodes, length, rng, errs) -> dict:
     try:
       out = apply_op(op, d, spec, js, pool, rng)
     except Exception as e:  # pylint: disable=broad-except
-      errs.append(f'op {op}:{type(e).__name__}:{str(e)[:80]}')
+      # the step is recorded as "raised"; TLC reports it (an operation on a valid DNA must not raise)
+      steps.append([op, before, ['!', 0, [], ['raised:' + type(e).__name__, [], -1]], [], [], True])
       break
     try:
       rebuilt = pg.DNA.from_numbers(out.to_numbers(), spec)
